@@ -214,12 +214,54 @@ def r_entry_sibling(ck: Checker) -> None:
     cs = [c for c in walk_body(m.node.body) if isinstance(c, ast.Call) and dotted(c.func) in ("NodeMatcher.from_pattern",)]
     direct = [c for c in walk_body(m.node.body) if isinstance(c, ast.Call) and (dotted(c.func) or "").endswith((".parse", "PatternDefInterpreter"))]
     what = "MultiPatternMatcher compiles every pattern through NodeMatcher.from_pattern and rejects iff that rejects"
-    ok = len(cs) == 1 and not direct
-    if ok:
-        # matcher None <=> collected as incorrect; any incorrect => definition error
-        txt = norm(m.node)
-        ok = "if matcher is None:" in txt and "raise ASTPatternDefinitionError(" in txt and "if incorrect_patterns:" in txt
-    (ck.holds if ok else ck.violation)("R-ENTRY-SIBLING", m, m.node, what, **({} if ok else {"construct": "MultiPatternMatcher.__init__: does not go through from_pattern / aggregation not recognised"}))
+    bad = None
+    if direct or not cs:
+        bad = "patterns are compiled without NodeMatcher.from_pattern"
+    else:
+        from ..dtree import decision_tree
+        from ..finite import k_none
+        loops = [st for st in m.node.body if isinstance(st, ast.For) and any(c in list(ast.walk(st)) for c in cs)]
+        if len(loops) != 1 or len(cs) != 1:
+            raise Unsupported("MultiPatternMatcher.__init__: not a single loop compiling each pattern once", m.node)
+        lp = loops[0]
+        unp = [st for st in walk_body(lp.body) if isinstance(st, ast.Assign) and st.value is cs[0] and isinstance(st.targets[0], ast.Tuple) and len(st.targets[0].elts) == 2]
+        if not unp:
+            raise Unsupported("MultiPatternMatcher.__init__: the from_pattern result is not unpacked into (matcher, message)", lp)
+        mv = norm(unp[0].targets[0].elts[0])
+        coll = None
+        for lf in decision_tree(lp.body):
+            if set(lf.assign) - {k_none(mv)}:
+                raise Unsupported(f"MultiPatternMatcher.__init__: loop decides on {sorted(lf.assign)}", lp)
+            apps = [c for st in lf.stmts for c in ast.walk(st) if isinstance(c, ast.Call) and isinstance(c.func, ast.Attribute) and c.func.attr in ("append", "add")]
+            regs = [st for st in lf.stmts if isinstance(st, ast.Assign) and isinstance(st.targets[0], ast.Subscript) and norm(st.targets[0].value) == "self._name_to_matcher"]
+            if k_none(mv) not in lf.assign:
+                bad = bad or "the compiled matcher is used without testing for rejection"
+            elif lf.assign[k_none(mv)]:
+                if regs:
+                    bad = bad or "a rejected pattern is registered"
+                if len(apps) != 1:
+                    bad = bad or "a rejected pattern is not collected"
+                else:
+                    coll = norm(apps[0].func.value)
+            else:
+                if apps:
+                    bad = bad or "an accepted pattern is collected as incorrect"
+                if len(regs) != 1 or norm(regs[0].value) != mv:
+                    bad = bad or "an accepted pattern is not registered under its name"
+        if not bad:
+            if coll is None:
+                raise Unsupported("MultiPatternMatcher.__init__: collection of rejected patterns not identified", lp)
+            tail = m.node.body[m.node.body.index(lp) + 1:]
+            tl = decision_tree(tail, sized=(coll,))
+            for lf in tl:
+                nrej = lf.assign.get(f"len({coll})")
+                if nrej is None:
+                    bad = bad or "the collected rejections are not inspected"
+                elif nrej > 0 and not (lf.outcome == "raise" and "ASTPatternDefinitionError" in (lf.val() or "")):
+                    bad = bad or "rejected patterns do not raise ASTPatternDefinitionError"
+                elif nrej == 0 and lf.outcome == "raise":
+                    bad = bad or "raises although every pattern was accepted"
+    (ck.holds if not bad else ck.violation)("R-ENTRY-SIBLING", m, m.node, what, **({} if not bad else {"construct": f"MultiPatternMatcher.__init__: {bad}"}))
 
 
 def r_gram_exh(ck: Checker) -> None:
